@@ -88,7 +88,14 @@ func TestRegress(t *testing.T) {
 		{"gaussian default peak 14h with repeat 1h", []string{kGaussCovered}, tick, func() (*api.Rates, error) {
 			return gaussian.CalculateGaussianRate(86400, 0, time.Hour, time.Second, 14*time.Hour, time.Minute, "", "none")
 		}},
-		// F12
+		// F6b residue after 8eb0748 (shrunk by hand from seed 6): the mass inside the window is positive but ~1e-198
+		{"gaussian peak at the window end, narrow bell", []string{kGaussCovered}, sweep(baseTime.Truncate(10*time.Minute).Add(9*time.Minute+59*time.Second), 100*time.Millisecond, 12), func() (*api.Rates, error) {
+			return gaussian.CalculateGaussianRate(1, 0, 10*time.Minute, time.Minute, 10*time.Minute, 2*time.Second, "1.0,1.0", "none")
+		}},
+		{"gaussian peak 46m outside a 10m window", []string{kGaussCovered}, tick, func() (*api.Rates, error) {
+			return gaussian.CalculateGaussianRate(1000, 0, 10*time.Minute, time.Second, 56*time.Minute+15*time.Second, 75*time.Second, "", "none")
+		}},
+		// N2
 		{"gaussian volume -1 random", []string{kGaussNegScale}, sweep(baseTime.Truncate(time.Minute).Add(29*time.Second), 100*time.Millisecond, 30), func() (*api.Rates, error) {
 			return gaussian.CalculateGaussianRate(-100000, 0, time.Minute, time.Second, 30*time.Second, 10*time.Second, "", "random")
 		}},
